@@ -82,19 +82,21 @@ Example ex_suggest_unknown_current_kept :
   suggest_maven_version N (fun _ => true) ex_cmp ex_dif false Patch (CSimple (Some 5%N)) [7%N] = SKeep.
 Proof. vm_compute. auto. Qed.
 
-(* "strictly upward" still fails at full strength for differently written versions that compare equal:
-   requirement 2 ("1.0"), registry version 3 ("1.0.0"), equal in the order: the update 1.0 -> 1.0.0 is
-   proposed although it moves nothing *)
-Theorem suggest_respelling_not_upward_refuted :
-  exists (cmp : N -> N -> comparison) dif l c vs cur v,
-    (forall a b, cmp b a = CompOpp (cmp a b)) /\
-    current_of N (fun _ => true) cmp c vs = Some cur /\
-    suggest_maven_version N (fun _ => true) cmp dif false l c vs = SNew v /\ v <> cur /\ cmp cur v = Eq.
-Proof.
-  exists (fun a b => N.compare (N.div2 a) (N.div2 b)), (fun _ _ => Same), Major, (CSimple (Some 2%N)), [3%N], 2%N, 3%N.
-  split; [intros a b; apply N.compare_antisym|]. vm_compute. repeat split; congruence.
-Qed.
-Print Assumptions suggest_respelling_not_upward_refuted.
+(* and a changed requirement is STRICTLY above the version the old one stands for: a version that
+   compares equal (a different spelling, 1.0 -> 1.0.0) is not proposed *)
+Theorem suggest_strictly_up : forall (V : Type) parses cmp dif,
+  (forall a b, cmp b a = CompOpp (cmp a b)) ->
+  forall verr l c vs cur v,
+  current_of V parses cmp c vs = Some cur ->
+  suggest_maven_version V parses cmp dif verr l c vs = SNew v -> cmp cur v = Lt.
+Proof. exact suggest_strictly_up_lemma. Qed.
+Print Assumptions suggest_strictly_up.
+
+(* the former witness: requirement 2 ("1.0"), registry version 3 ("1.0.0"), equal in the order: kept *)
+Example ex_suggest_respelling_kept :
+  suggest_maven_version N (fun _ => true) (fun a b => N.compare (N.div2 a) (N.div2 b)) (fun _ _ => Same)
+                        false Major (CSimple (Some 2%N)) [3%N] = SKeep.
+Proof. vm_compute. reflexivity. Qed.
 
 (* non-vacuity: a listed current version, an allowed higher version, a disallowed one *)
 Example ex_suggest_on_D :
